@@ -24,10 +24,13 @@ RULE += (
     ' readers with different options read alternately; truncated payloads must fail the same way under all'
     ' four option values.'
 )
+RULE += (
+    " Also: a message of another constellation with bit-identical masks parsed right before each option."
+)
 ASSUMPTIONS = ["option value 0 is only required to leave non-label attributes untouched (its label style is not specified)",
                "under the frequency-band option a signal with a pinned RINEX code is not labelled with that RINEX code "
                "(band labels and RINEX observation codes are different vocabularies)"]
-GATES = ["msm_compared", "nonmsm_compared", "entrypoints_compared", "label_function_checked", "cells_compared",
+GATES = ["sibling_constellation_parsed_first", "msm_compared", "nonmsm_compared", "entrypoints_compared", "label_function_checked", "cells_compared",
          "live_readers_compared"]
 
 OPTS = (0, 1, 2, True)
@@ -68,6 +71,13 @@ def check(ctx, identity, payload, meta, params):
     try:
         res = {}
         for opt in order:
+            if params.get("sibling"):
+                # right before: the SAME masks in a message of another constellation, under the same option
+                try:
+                    via("ctor", bytes.fromhex(params["sibling"]), opt)
+                    ctx.hit("sibling_constellation_parsed_first")
+                except Exception:
+                    pass
             res[opt] = via("ctor", payload, opt)
     except Exception as e:
         ctx.violation("option-parse-raised", f"{identity}: {type(e).__name__}: {str(e)[:160]}", params)
@@ -137,10 +147,12 @@ def check(ctx, identity, payload, meta, params):
                                   f"has no effect for this constellation", params)
                     return
                 key = (opt, pre, gid)
-                old = ctx.labelmap.setdefault(key, lab)
+                first = {k_: v_ for k_, v_ in params.items() if k_ in ("identity", "payload", "sibling")}
+                old, first = ctx.labelmap.setdefault(key, (lab, first))
                 if old != lab:
                     ctx.violation("label-not-a-function", f"{identity}: under labelmsm={opt} signal ID {gid} of "
-                                  f"{refmsm.CONSTELLATION[pre]} is labelled {lab!r} here but {old!r} elsewhere", params)
+                                  f"{refmsm.CONSTELLATION[pre]} is labelled {lab!r} here but {old!r} elsewhere",
+                                  dict(params, first=first))
                     return
                 ctx.hit("label_function_checked")
         ctx.hit("msm_compared")
@@ -190,8 +202,19 @@ def run(ctx):
                 enc = refmodel.build(identity, r2, r2.choice(refmodel.VSTRATS), "small", ms, force=force)
             except refmodel.DefinitionError:
                 break
+            extra = {}
+            if msm and j % 4 == 1:
+                others = [g + identity[3] for g in refmsm.CONSTELLATION if g != identity[:3]]
+                try:
+                    sib = refmodel.build(r2.choice(others), r2, "random", "small", "random",
+                                         force={"DF394": enc.meta["satmask"], "DF395": enc.meta["sigmask"],
+                                                "DF396": enc.meta["cellmask"]})
+                    extra = {"sibling": sib.payload.hex()}
+                except (refmodel.DefinitionError, KeyError):
+                    pass
             check(ctx, identity, enc.payload, enc.meta,
-                  {"identity": identity, "seedtag": seedtag, "j": j, "mstrat": ms, "payload": enc.payload.hex()})
+                  dict({"identity": identity, "seedtag": seedtag, "j": j, "mstrat": ms, "payload": enc.payload.hex()},
+                       **extra))
             if j % 10 == 0 and len(enc.payload) > 4:
                 broken_case(ctx, identity, enc.payload[: r2.randint(3, len(enc.payload) - 1)])
     from vf import common
@@ -208,7 +231,7 @@ def run(ctx):
         check(ctx, ident_, pl_, meta_, {"identity": ident_, "payload": pl_.hex(), "recorded": name_})
         ctx.hit("recorded_frames_checked")
     ctx.sample({"options": [0, 1, 2, True], "label_pairs_seen": len(ctx.labelmap),
-                "example": [[list(map(str, k)), v] for k, v in list(ctx.labelmap.items())[:6]]})
+                "example": [[list(map(str, k)), v[0]] for k, v in list(ctx.labelmap.items())[:6]]})
 
 
 def replay(ctx, p):
@@ -217,6 +240,12 @@ def replay(ctx, p):
     if p.get("broken"):
         broken_case(ctx, p["identity"], payload)
         return
+    if p.get("first") and p["first"].get("payload"):
+        f_ = p["first"]
+        try:
+            check(ctx, f_["identity"], bytes.fromhex(f_["payload"]), refmodel.decode(f_["identity"], bytes.fromhex(f_["payload"])).meta, f_)
+        except Exception:
+            pass
     try:
         meta = refmodel.decode(p["identity"], payload).meta
     except Exception:
